@@ -955,6 +955,10 @@ func Generate(profile string, seed uint64, idx int, maxOps, maxSess int) *Scenar
 		g.join(g.r.IntN(realms), false)
 	}
 	w := profileWeights(base)
+	if g.hasHist && w.hist == 0 {
+		w.hist = 8
+		w.pub += 10
+	}
 	total := w.sub + w.unsub + w.pub + w.reg + w.unreg + w.call + w.cancel + w.yield + w.leave + w.join + w.tick + w.meta + w.hist
 	nops := maxOps/2 + g.r.IntN(maxOps/2+1)
 	for len(g.sc.Ops) < nops {
